@@ -26,9 +26,11 @@ ZONE_LINES = ["plain", "\tTabbed", "é nfd", "back\\slash \\n", 'q"uote', "A->B
 
 
 class Gen:
-    def __init__(self, rng, wild=False, max_depth=4, max_sibs=5):
+    def __init__(self, rng, wild=False, max_depth=4, max_sibs=5, clean=False, ok_strings=None):
         self.r = rng
         self.wild = wild
+        self.clean = clean              # avoid the known finding classes by construction (valid stream)
+        self.ok_strings = ok_strings    # strings the model classifies as class 0 (None = unknown)
         self.max_depth = max_depth
         self.max_sibs = max_sibs
 
@@ -39,11 +41,22 @@ class Gen:
         return r.choice(KEYS)
 
     def string(self):
+        s = self._string()
+        if self.clean and self.ok_strings is not None:
+            for _ in range(20):
+                if s in self.ok_strings:
+                    break
+                s = self._string()
+            else:
+                s = "x"
+        return s
+
+    def _string(self):
         r = self.r
         x = r.random()
         if x < 0.45:
             return r.choice(WORDS)
-        if x < 0.9:
+        if x < 0.9 or (self.clean and self.ok_strings is not None):
             return r.choice(SPECIAL_STR)
         return "".join(r.choice(WORDS + SPECIAL_STR) for _ in range(r.randint(2, 4)))
 
@@ -142,14 +155,36 @@ class Gen:
             return ("a", "", self.zone(), [], None)
         return ("a", self.key(), self.scalar(), [], None)
 
+    def _declutter(self, nodes):
+        """clean mode: a comment line may only follow a leaf line of the same body (avoids the
+        comment-dedent / empty-body-comment finding classes by construction)"""
+        out = []
+        for n in nodes:
+            prev_leaf = (not out) or out[-1][0] == "a" and out[-1][2][0] != "list" or out[-1][0] == "c"
+            if not prev_leaf:
+                if n[0] == "c":
+                    continue
+                if n[0] == "a":
+                    n = ("a", n[1], n[2], [], n[4])
+                elif n[0] == "b":
+                    n = ("b", n[1], n[2], n[3], [])
+                else:
+                    n = ("s", n[1], n[2], n[3], n[4], [])
+            out.append(n)
+        return out
+
     def children(self, depth, in_block=False):
         r = self.r
         out = [self.node(depth) for _ in range(r.randint(0 if self.wild else 1, self.max_sibs))]
         if not self.wild:
             if in_block and r.random() < 0.12:
+                if self.clean:
+                    return [("a", "", self.zone(), [], None)]          # a bare zone only as sole child
                 out.insert(r.randint(0, len(out)), ("a", "", self.zone(), self.comments(), None))
             if r.random() < 0.1:   # orphan comments only at the end of a body
                 out += [("c", self.comment_text()) for _ in range(r.randint(1, 2))]
+            if self.clean:
+                out = self._declutter(out)
         return out
 
     def meta(self):
@@ -182,6 +217,13 @@ class Gen:
         if r.random() < 0.15:
             front = r.choice(["name: Agent (x)", "a: 1\nb: [2]", "tést: →", " ", ""]) if self.wild else \
                 r.choice(["name: Agent (x)", "a: 1\nb: [2]", "tést: →"])
+        secs = None
+        if self.clean:
+            secs = self._declutter([n for n in (self.node(0) for _ in range(r.randint(1, self.max_sibs + 2))) if n[0] != "c"])
+            trailing = self.comments() if (r.random() < 0.5 and secs and secs[-1][0] == "a" and secs[-1][2][0] != "list") else []
+            grammar = None if front is not None else r.choice([None, None, None, "5.1.0", "6", "5.1.0-beta.1"])
+            return {"name": r.choice(["DOC", "MyDoc", "_x", "A1"]), "grammar": grammar, "front": front,
+                    "sep": r.random() < 0.3, "meta": self.meta(), "sections": secs, "trailing": trailing}
         return {
             "name": r.choice(["DOC", "MyDoc", "_x", "A1"]),
             "grammar": r.choice([None, None, None, "5.1.0", "6", "5.1.0-beta.1"]),
